@@ -187,6 +187,8 @@ fn must_quote(s: &[u8]) -> bool {
         || !ns_plain_one_line(s)
         // trailing blanks are not part of a plain scalar
         || s.last().is_some_and(s_white)
+        // saphyr-parser rejects a plain scalar ending in a blank and `-` before `,` / `]` / `}`
+        || matches!(s, [.., b' ' | b'\t', b'-'])
 }
 
 #[test]
